@@ -101,19 +101,20 @@ var embeddedHash = map[string]common.Hash{
 }
 
 // payerCode assembles a minimal wasm contract that moves DNA (none of the bundled contracts does):
-//   deploy()                      no-op
-//   pay(addr, amount)             create_transfer_promise(addr, amount)
-//   burn(amount)                  burn(amount)
-//   payfail(addr, amount)         create_transfer_promise(addr, amount); trap
-//   paytwice(addr, amount)        two transfer promises of the same amount
-//   store(key, value)             set_storage(key, value)
-//   storefail(key, value)         set_storage(key, value); trap
-//   ping()                        no-op            } targets of cross-contract calls
-//   boom()                        trap             }
-//   relay(addr, amount)           create_call_function_promise(addr, "ping", <no args>, amount, gas)
-//   relayboom(addr, amount)       create_call_function_promise(addr, "boom", <no args>, amount, gas)
-//   hop_()                        create_call_function_promise(caller(), "ping", <no args>, 0, gas)
-//   relayhop(addr, amount)        create_call_function_promise(addr, "hop_", <no args>, amount, gas)   (nesting depth 2)
+//
+//	deploy()                      no-op
+//	pay(addr, amount)             create_transfer_promise(addr, amount)
+//	burn(amount)                  burn(amount)
+//	payfail(addr, amount)         create_transfer_promise(addr, amount); trap
+//	paytwice(addr, amount)        two transfer promises of the same amount
+//	store(key, value)             set_storage(key, value)
+//	storefail(key, value)         set_storage(key, value); trap
+//	ping()                        no-op            } targets of cross-contract calls
+//	boom()                        trap             }
+//	relay(addr, amount)           create_call_function_promise(addr, "ping", <no args>, amount, gas)
+//	relayboom(addr, amount)       create_call_function_promise(addr, "boom", <no args>, amount, gas)
+//	hop_()                        create_call_function_promise(caller(), "ping", <no args>, 0, gas)
+//	relayhop(addr, amount)        create_call_function_promise(addr, "hop_", <no args>, amount, gas)   (nesting depth 2)
 func payerCode() []byte {
 	const (
 		tAlloc = 0 // (i32) -> i32
@@ -911,7 +912,7 @@ func (x *Exec) run(s *State, kind string, op Op, caseID int, step int) bool {
 			}
 		}
 		line := tr.M{"ev": "Tx", "id": caseID, "step": step, "c": kind, "op": op, "tx": t,
-			"rc": rcJ{Success: rc.Success, GasUsed: rc.GasUsed, GasCost: nz(sim.Limbs(rc.GasCost)), Oog: !rc.Success && isOutOfGas(errText)},
+			"rc":  rcJ{Success: rc.Success, GasUsed: rc.GasUsed, GasCost: nz(sim.Limbs(rc.GasCost)), Oog: !rc.Success && isOutOfGas(errText)},
 			"eff": x.effOf(c, sh, wsh, rc.ContractAddress), "mid": i < len(mined)-1, "st": []acctJ{}, "err": errText, "need": need, "method": rc.Method}
 		lines = append(lines, line)
 		if rc.Success {
